@@ -89,9 +89,10 @@ Theorem C05_error_at_plain_token : forall own ts oi t, nth_error ts oi = Some t 
   current_location (Some (conv_positions own 0 ts)) (flat_index ts oi) = st_start t.
 Proof. exact error_at_plain_token. Qed.
 
-(* no token under the cursor: no location (the zero Location) *)
+(* no token under the cursor (a production stepped over the end of input): the position of the last token, i.e. the end of
+   input — inside the input, never the zero Location *)
 Theorem C05_error_beyond_tokens : forall own ts cursor, flat_index ts (length ts) <= cursor ->
-  current_location (Some (conv_positions own 0 ts)) cursor = (0, 0).
+  current_location (Some (conv_positions own 0 ts)) cursor = last_start (conv_positions own 0 ts).
 Proof. exact error_beyond_tokens. Qed.
 
 (* split compound keywords (GROUP BY, LEFT JOIN, ...): for a two-word keyword read by the tokenizer from offsets
@@ -191,5 +192,5 @@ Example ex2_positions :
              {| st_start := (3, 6); st_end := (3, 6); st_parts := [] |}] in
   conv_positions true 0 ts = [(0, ((1, 1), (1, 7))); (1, ((2, 1), (2, 6))); (1, ((3, 3), (3, 5))); (2, ((3, 6), (3, 6)))]
   /\ current_location (Some (conv_positions true 0 ts)) 2 = (3, 3)
-  /\ current_location (Some (conv_positions true 0 ts)) 4 = (0, 0).
+  /\ current_location (Some (conv_positions true 0 ts)) 4 = (3, 6).
 Proof. vm_compute. repeat split; reflexivity. Qed.
